@@ -14,11 +14,15 @@ META = dict(
          "send the retained files are read oldest to newest and compared with the rotation oracle; the run's journal then gives the "
          "file-system state after EVERY operation, and for each such crash point every admissible survival pattern of the unsynced bytes "
          "(any prefix, cut at every byte) is materialised and checked: every record written before the most recent completed Log.flush "
-         "is still present (unless its copy was rotated out of the oldest slot), records are in order, at most once.",
+         "is still present (unless its copy was rotated out of the oldest slot), records are in order, at most once, and the newest file "
+         "starts with its header once a flush point or a rotation has completed since it was created.  For reuse=True configurations the "
+         "all-lost and all-kept image of every crash point is additionally handed to a fresh Logger on the same directory (START, RUN, RUN, "
+         "STOP): afterwards every retained file of such a log must start with the header.",
     note="Durability model is an assumption (directory operations atomic and durable in program order, data durable only after fsync, "
          "any prefix of unsynced appended bytes may survive); rules always/once/update/change (promised records of the sparse rules from "
          "the C22 reference), streak/deck not run here; filing.ocfn itself is replaced by the double (its contract is "
-         "modelled, its code is not run); no I/O errors injected; post-crash restart not modelled.",
+         "modelled, its code is not run); no I/O errors injected; a crash before the newest file ever reached a flush point (first second of a run, or inside "
+         "Log.cycle) may leave it empty or with a torn header and is not judged.",
 )
 import json
 import os
@@ -191,22 +195,22 @@ class Run:
         self.viol.append((group, (self.idx, len(self.viol)), "%s: %s" % (cfg_str(self.cfg), where), what, replay))
 
     # ---- execution
-    def make_world(self):
+    def make_world(self, fs=None):
         from mc import vfs
         from ioflo.base import globaling as g
         c = self.cfg
+        fs = fs or self.fs
         rules = dict(always=g.ALWAYS, once=g.ONCE, update=g.UPDATE, change=g.CHANGE)
         init = {"mc.x": self.seq, SPARSE_SHARE: self.sval}
         first = self.logs[0]
-        w = vfs.LogWorld(self.fs, rules[first.rule], fields=["n"], share_init=[("n", init[first.share])], tick=TICK,
+        w = vfs.LogWorld(fs, rules[first.rule], fields=["n"], share_init=[("n", init[first.share])], tick=TICK,
                          base=first.base, tag=TAG, share_name=first.share,
                          logger_kw=dict(flushPeriod=c["flush"], keep=c["keep"], cyclePeriod=c["cyc"],
                                         fileSize=c["size"], reuse=c["reuse"]),
                          more_logs=[(ls.base, rules[ls.rule], ["n"], ls.share, [("n", init[ls.share])])
                                     for ls in self.logs[1:]])
         for k, log in enumerate(w.logs):
-            self.instrument(log, k)
-        fs = self.fs
+            self.instrument(log, k, fs)
         logger_flush = w.logger.flush
 
         def flush_all():
@@ -219,9 +223,16 @@ class Run:
         w.logger.flush = flush_all
         return w
 
-    def instrument(self, log, k):
-        """Journal a marker whenever Log.flush() / Log.close() returns for an open file."""
-        fs = self.fs
+    def instrument(self, log, k, fs):
+        """Journal a marker whenever Log.flush() / Log.close() returns for an open file, and
+        whenever Log.cycle() returns."""
+        orig_cycle = log.cycle
+
+        def cycle(*a, **kw):
+            res = orig_cycle(*a, **kw)
+            fs.mark("cycled", log=k, result=bool(res))
+            return res
+        log.cycle = cycle
 
         def wrap(orig, by):
             def wrapped():
@@ -392,6 +403,9 @@ class Run:
         written = [[] for _ in self.logs]             # record numbers handed to write(), per log
         flushed = [set() for _ in self.logs]          # ... before the most recent completed flush/close of that log
         dropped = [set() for _ in self.logs]          # records rotated out of the oldest slot (by design)
+        hdr_due = [False] * len(self.logs)            # a flush point / rotation completed since the main file was created
+        renamed = [False] * len(self.logs)            # the main file was renamed inside the current Log.cycle()
+        restarted = set()                             # crash images already put through the restart phase
         send = None
         snap_of = dict((j, k) for k, j in enumerate(fs.snap_at))
         for j, (kind, args, info) in enumerate(fs.journal):
@@ -400,6 +414,11 @@ class Run:
                     send = info
                 elif args[0] == "flushed":
                     flushed[info["log"]] = set(written[info["log"]])
+                    hdr_due[info["log"]] = True
+                elif args[0] == "cycled":
+                    if renamed[info["log"]]:
+                        hdr_due[info["log"]] = True           # a rotation has completed
+                    renamed[info["log"]] = False
                 continue
             ino = info.get("ino")
             ls = owner.get(args[0]) if args else None
@@ -409,7 +428,12 @@ class Run:
                     if m:
                         recs.setdefault(ino, []).append(int(m.group(1)))
                         written[ls.k].append(int(m.group(1)))
+            elif kind == "create" and ls is not None and args[0] == ls.paths[0]:
+                hdr_due[ls.k] = False                        # a fresh main file: nothing promised yet
             elif kind == "rename" and ls is not None:
+                if args[0] == ls.paths[0]:
+                    renamed[ls.k] = True
+                    hdr_due[ls.k] = False                    # rotation in progress: no newest file for the moment
                 over = info.get("over")
                 if over is not None and recs.get(over):
                     if args[1] == ls.paths[-1]:
@@ -446,6 +470,11 @@ class Run:
                     if bad is None and any(b <= a for a, b in zip(present, present[1:])):
                         bad = ("crash|%s" % ("duplicate" if len(set(present)) != len(present) else "order"),
                                "records of %s read oldest to newest are %r" % (ls.base, present))
+                    newest = img.get(ls.paths[0])
+                    if bad is None and hdr_due[ls.k] and not (newest or "").startswith(ls.header):
+                        bad = ("crash|newest-file-without-header|after-%s" % opname,
+                               "newest file %s is %r although a flush point or a rotation has completed since it was created"
+                               % (os.path.basename(ls.paths[0]), newest))
                     missing = sorted(need[ls.k] - set(present))
                     if bad is None and missing:
                         bad = ("crash|flushed-record-lost|after-%s" % opname,
@@ -461,6 +490,12 @@ class Run:
                     return
                 if lost:
                     self.part.nontrivial((self.idx, j, pat))
+                if c["reuse"] and (lost == 0 or lost == unsynced):
+                    key = (tuple(hdr_due), tuple(sorted(img.items())))
+                    if key not in restarted:
+                        restarted.add(key)
+                        if self.restart_phase(img, snap, hdr_due, where0, send):
+                            return
                 self.part.outcome("crash:%s/%s" % (
                     "nothing unsynced" if not unsynced else "all unsynced lost" if lost == unsynced else
                     "all unsynced kept" if not lost else "partial loss",
@@ -483,6 +518,50 @@ def work_shard(item):
             out.merge(p)
     out.extra["viol"] = viol
     return out
+
+
+def _restart_phase(self, img, snap, hdr_due, where0, send):
+    """A new process (fresh House/Logger/Logs, reuse=True) starts on the directory as the crash
+    left it (all-lost and all-kept images of every crash point), runs START, RUN, RUN, STOP.
+    Afterwards every retained file of a log whose newest file had passed a flush point or a
+    completed rotation before the crash must start with the header."""
+    from mc import vfs
+    from ioflo.base import globaling as g
+    c = self.cfg
+    fs2 = vfs.VFS.from_image(snap["dirs"], img)
+    vfs.install(fs2)
+    self.part.evaluations += 1
+    t0 = (send["tick"] if send else 0) + 1
+    where = where0 + ", then restart on the surviving files"
+    try:
+        w = self.make_world(fs2)
+        for i, ctl in enumerate((g.START, g.RUN, g.RUN, g.STOP)):
+            w.store.changeStamp((t0 + i) * TICK)
+            for sh in w.shares.values():
+                sh.update(n=900 + i)
+            w.send(ctl)
+    except Exception as ex:
+        self.violation("restart|raises|%s" % type(ex).__name__, where, "restart raised %r; %s (%s)" % (ex, where, cfg_str(c)),
+                       dict(files_after_crash=img))
+        return True
+    worst = "all files start with the header"
+    for ls, log in zip(self.logs, w.logs):
+        for p in w.paths(log):
+            content = fs2.logical(p)
+            if content and not content.startswith(ls.header):
+                if hdr_due[ls.k]:
+                    self.violation("restart|file-without-header", where,
+                                   "after a restart on the surviving files %s is %r: no header, although its newest file had passed a "
+                                   "flush point or a completed rotation before the crash; %s (%s)"
+                                   % (os.path.basename(p), content[:60], where, cfg_str(c)),
+                                   dict(files_after_crash=img, files_after_restart=dict((q, fs2.logical(q)) for q in fs2.listing())))
+                    return True
+                worst = "headerless file, newest file never reached a flush point before the crash"
+    self.part.outcome("restart:%s" % worst)
+    return False
+
+
+Run.restart_phase = _restart_phase
 
 
 def work(item):
@@ -555,8 +634,14 @@ def run():
         "START at the same values still gives distinct records",
         "sparse logs (once/update/change) log their own share, written before the logger in the listed ticks with the value tick+1; which "
         "sends produce a record is taken from the C22 reference model of the statement (checks.c22.Ref)",
-        "after a crash only the crash clause of the statement (flushed records present) plus order/at-most-once/no headerless records are "
-        "checked; restarting on top of a crashed directory is not modelled",
+        "after a crash: the crash clause of the statement (flushed records present) plus order/at-most-once/no headerless records; the "
+        "header counts as written data: once Logger.flush/Log.flush/Log.close has returned for the newest file, or a Log.cycle() that renamed "
+        "the main file has returned (a completed rotation), the surviving newest file must start with the complete header",
+        "restart phase (reuse=True only): a fresh House/Logger/Log set runs START, RUN, RUN, STOP on the all-lost and on the all-kept image of "
+        "every crash point; every retained file of a log whose newest file had passed such a point must then start with the header.  A crash "
+        "before the newest file's first flush point (initial file before the first periodic flush; inside Log.cycle between create and the "
+        "header's fsync) can leave an empty or torn file that a reuse restart appends to without a header on the unchanged tree as well; the "
+        "statement promises nothing for data never covered by a flush, so that window is only counted (outcome 'restart:headerless ...')",
     ]
     ck.coverage_extra = dict(configurations=len(cfgs), tick=TICK, header_bytes=H, midwrite_cuts=midwrite,
                              ticks_per_run=cfgs[0]["nticks"] if cfgs else 0)
